@@ -309,6 +309,21 @@ def h_store_switch_times(I):
     return out
 
 
+def h_store_switch_times_one(I):
+    """one timer value: the time the loop is steered to IS the time the device compares with (exact equality in is_time)"""
+    import andes.system as SY
+    nowt, ta = I.real('now'), I.real('ta')
+    eps = 1e-4
+    I.assume(LE(nowt, ta - eps))
+    A = NS(class_name='A', get_times=lambda: [(pysym.oarr([ta]) if I.symbolic else np.array([float(ta)]))])
+    fake = NS(options={}, dae=NS(t=nowt), switch_dict={}, models={'A': A}, switch_times=None, n_switches=0)
+    SY.System.store_switch_times(fake, {'A': A}, eps=eps)
+    st = list(fake.switch_times)
+    return [('a single future event yields three grid times', len(st) == 3),
+            ('the event time itself is on the grid exactly (TimerParam.is_time compares with ==)', OR(*[EQ(s, ta, tol=0.0) for s in st]) if st else False),
+            ('its neighbours are exactly eps away', AND(OR(*[EQ(s, ta - eps, tol=1e-15) for s in st]), OR(*[EQ(s, ta + eps, tol=1e-15) for s in st])) if st else False)]
+
+
 # ------------------------------------------------------------------------ callbacks on a real System
 _SYS = {}
 
@@ -434,7 +449,9 @@ def job(spec):
     if kind == 'exitb':
         return H.run('TDS.run epilogue (busted)', h_exit_busted(), region=region_of)
     if kind == 'sst':
-        return H.run('System.store_switch_times', h_store_switch_times, timeout_ms=20000, max_paths=20000, region=region_of)
+        if arg == 'one':
+            return H.run('System.store_switch_times[one event]', h_store_switch_times_one, timeout_ms=20000, max_paths=200, region=region_of)
+        return H.run('System.store_switch_times', h_store_switch_times, timeout_ms=20000, max_paths=20000, region=region_of, max_seconds=240)
     if kind == 'toggle':
         return H.run('Toggle._u_switch', h_toggle, region=region_of)
     if kind == 'fault':
@@ -472,7 +489,7 @@ def main():
               'store_switch_times: distinct event times are more than 3*eps apart')
     ck.out('TimeSeries.apply_exact', 'quasi-real-time sleeping', 'events refreshed during the run (refresh_event=1)',
            'csv replay mode')
-    jobs = [('iter', (k, cv, fx)) for k in range(4) for cv in (True, False) for fx in (True, False)] + [('base', 0), ('resume', 0), ('exit', 0), ('exitb', 0), ('sst', 0), ('toggle', 0), ('fault', 0)] \
+    jobs = [('iter', (k, cv, fx)) for k in range(4) for cv in (True, False) for fx in (True, False)] + [('base', 0), ('resume', 0), ('exit', 0), ('exitb', 0), ('sst', 0), ('sst', 'one'), ('toggle', 0), ('fault', 0)] \
         + [('alter', m) for m in ('+', '-', '*', '/', '=')]
     res = core.pmap(job, jobs)
     ck.merge(res)
